@@ -159,6 +159,7 @@ def _job(a):
         return [dict(skip, why=f"not executable as plain Python: {type(ex).__name__}: {ex}"[:120])]
     eng = pyvc.Engine()
     eng.opaque_symbols = False
+    eng.int_uf = True          # bit operators / products of two unknowns as uninterpreted functions: enough to prove two programs EQUAL
     try:
         p0 = eng.explore(lambda vc: (f0, list(args), {}), max_paths=200)
         p1 = eng.explore(lambda vc: (f1, list(args), {}), max_paths=200)
@@ -214,6 +215,8 @@ def _job(a):
             r0, r1 = run(f0), run(f1)
             differs = r0[0] == "value" and (r1 != r0 or (r1[0] == "value" and type(r1[1]) is not type(r0[1]))) and not (r1[0] == "raises" and r1[1] in ("NameError", "UnboundLocalError"))
             if not differs:
+                if getattr(eng, "uf_applied", 0):
+                    return [dict(skip, why="the only counter-models come from treating bit operators as uninterpreted (they do not replay): abstraction too coarse for this program")]
                 return [res(name, UNDECIDED, detail=f"counter-model {cargs} does not replay natively ({r0} / {r1})", **base)]
             return [res(name, REFUTED, secs=time.time() - t0, replayed=True, solver_output=str(model)[:300],
                         replay=dict(program=src, arguments=[repr(c) for c in cargs], python_value_of_the_program=repr(r0), python_value_of_the_rewritten_program=repr(r1),
